@@ -59,6 +59,7 @@ func invalidCorpus() []CorpusReq {
 	add("inverted-values-range", set(ws, M{"min": 3.0, "max": 1.0}, "criteria", 0, "valuesRange"))
 	add("empty-values-range", set(ws, M{"min": 2.0, "max": 2.0}, "criteria", 0, "valuesRange"))
 	add("alternative-lacks-criterion-value", set(ws, M{"c1": 1.0, "c2": 2.0}, "knownAlternatives", 1, "criteria"))
+	add("not-considered-alternative-lacks-criterion-value", set(ws, M{"c1": 2.0, "c3": 0.5}, "knownAlternatives", 2, "criteria"))
 	add("unknown-alternative-in-choseToMake", set(ws, L{"a", "nobody"}, "choseToMake"))
 	add("weightedSum-missing-weights", set(ws, deleteKey{}, "methodParameters", "weights"))
 	add("weightedSum-missing-one-weight", set(ws, M{"c1": 1.0, "c2": 2.0}, "methodParameters", "weights"))
@@ -81,6 +82,14 @@ func invalidCorpus() []CorpusReq {
 	add("electre-p-not-below-v", set(el, M{"b": 1.0}, "methodParameters", "electreCriteria", "c1", "v"))
 	add("electre-distillation-negative-on-unit-interval", set(el, M{"a": -0.2, "b": 0.1}, "methodParameters", "electreDistillation"))
 	add("electre-distillation-negative-constant", set(el, M{"a": 0.0, "b": -0.1}, "methodParameters", "electreDistillation"))
+	add("electre-distillation-negative-at-zero-only", set(el, M{"a": 1.0, "b": -0.6}, "methodParameters", "electreDistillation"))
+	add("electre-distillation-negative-at-one-only", set(el, M{"a": -1.0, "b": 0.5}, "methodParameters", "electreDistillation"))
+	// the same on data where two alternatives outrank each other with credibility 0.5 (each better on one of two equal criteria)
+	sym := set(set(set(el, M{"c1": 2.0, "c2": 1.0, "c3": 1.0}, "knownAlternatives", 0, "criteria"), M{"c1": 1.0, "c2": 2.0, "c3": 1.0}, "knownAlternatives", 1, "criteria"),
+		M{"c1": M{"k": 1.0}, "c2": M{"k": 1.0}, "c3": M{"k": 1.0}}, "methodParameters", "electreCriteria")
+	sym = set(sym, L{crit("c1", "gain"), crit("c2", "gain"), crit("c3", "gain")}, "criteria")
+	add("electre-distillation-negative-at-zero-only-symmetric-data", set(sym, M{"a": 1.0, "b": -0.6}, "methodParameters", "electreDistillation"))
+	add("electre-distillation-negative-small-intercept", set(sym, M{"a": 0.5, "b": -0.01}, "methodParameters", "electreDistillation"))
 	mj := rootRequest("majorityHeuristic", true, false)
 	add("majority-unknown-draw-resolution", set(mj, "coinflip", "methodParameters", "drawResolution"))
 	add("majority-missing-weight", set(mj, M{"c1": 1.0}, "methodParameters", "weights"))
